@@ -7,6 +7,7 @@ import (
 	"math"
 	"math/rand"
 	"reflect"
+	"regexp"
 	"sort"
 	"strings"
 	"sync"
@@ -761,6 +762,8 @@ func c08OtherConfigs(w *W, r *rand.Rand) {
 
 var c08FreshNames int
 
+var c08AddrRe = regexp.MustCompile(`,cap=[0-9]+,@0x[0-9a-f]+`)
+
 // c08OtherNotation: what Compile makes of (config, source) does not depend on whether the same text - the same words -
 // was compiled before under a Config with the other notation (a service that keeps rules of both kinds). Every probe uses
 // names this process has never seen: one text is compiled directly, its twin (other fresh names, same shape) after the
@@ -845,6 +848,9 @@ func c08OptionReuse(w *W, r *rand.Rand, c *c08Case) {
 		w.Fail("extendconf-panic", "NewConfig(ExtendConf(base)) panicked after base was edited: %v", o.Panic)
 		return
 	}
+	// contents only: where the derived Config keeps its stateless list (capacity, address) is its own business
+	norm := func(t string) string { return c08AddrRe.ReplaceAllString(t, "") }
+	first, second, fresh = norm(first), norm(second), norm(fresh)
 	if second != fresh && second != first {
 		w.Fail("extendconf-option-reuse-inconsistent", "an ExtendConf option applied again after its source was edited gives a Config that is neither the edited source (what a fresh ExtendConf gives) nor the source as it was when the option was built\nreused option:\n%s\nfresh option:\n%s\nbefore the edit:\n%s", second, fresh, first)
 	}
